@@ -53,12 +53,39 @@ CHECKS.update({
                 technique="deterministic simulation: history invariant monitor on every simulated step"),
 })
 
+CHECKS.update({
+    "C04": dict(level="fault_enumeration",
+                text="Fault enumeration over simulated runs: for every scenario of a hand-written corpus the crash-free "
+                     "run is recorded and one engine crash + restart (only durable state survives: broker queues, "
+                     "persistent messages, the JSON store file; unacknowledged deliveries are redelivered) is injected "
+                     "after EVERY scheduler step and after EVERY broker operation of that run; no-loss, no-duplicate-"
+                     "request and outcome-preservation oracles. The crash-point set of each scenario run is enumerated "
+                     "completely; scenarios, schedules and down-times are sampled.",
+                ref="5/C04", note=NOTE_BASE + "; single engine instance, file-backed store; workers keep replying while "
+                                             "the engine is down.",
+                technique="deterministic simulation with crash/restart fault injection enumerated over every crash point "
+                          "of recorded runs"),
+    "C07": dict(level="exploration",
+                text="Seeded search over retrier/catcher lists and scripted error sequences on the virtual clock: "
+                     "request instants, terminal instant and outcome compared with a reference error-handling model "
+                     "(exact under zero latency, never-early under latency); publish monitor for leaked retry counters.",
+                ref="5/C07", note=NOTE_BASE + "; reference model model/asl.py (per-retrier counters).",
+                technique="deterministic simulation: virtual-time differential check against a reference retry/catch model"),
+    "C08": dict(level="exploration",
+                text="Virtual-clock comparison of every Wait exit, task request and terminal instant with the reference "
+                     "model for generated programs full of waits and time-outs (exact at zero latency; never early under "
+                     "latency or an injected engine stall), plus the complete enumeration of all 2879 UTC offsets for "
+                     "Wait TimestampPath and Choice timestamp comparisons.",
+                ref="5/C08", note=NOTE_BASE + "; exact ties between a reply and a deadline are excluded.",
+                technique="deterministic simulation: discrete-event virtual time, stall faults, enumerated offset slice"),
+})
+
 NA = [
     ("C12", "pure functions of (document, path, result): no schedule, clock, fault or interleaving to simulate"),
     ("C13", "pure function of (template, input, context): no schedule, clock, fault or interleaving to simulate"),
     ("C14", "pure function of (rule tree, input): no schedule, clock, fault or interleaving to simulate"),
 ]
-NOT_YET = {'C04': 'check not built yet (in progress)', 'C07': 'check not built yet (in progress)', 'C08': 'check not built yet (in progress)', 'C10': 'check not built yet (in progress)', 'C11': 'check not built yet (in progress)', 'C15': 'check not built yet (in progress)', 'C16': 'check not built yet (in progress)', 'C17': 'check not built yet (in progress)', 'C18': 'check not built yet (in progress)', 'C19': 'check not built yet (in progress)', 'C20': 'check not built yet (in progress)'}
+NOT_YET = {'C10': 'check not built yet (in progress)', 'C11': 'check not built yet (in progress)', 'C15': 'check not built yet (in progress)', 'C16': 'check not built yet (in progress)', 'C17': 'check not built yet (in progress)', 'C18': 'check not built yet (in progress)', 'C19': 'check not built yet (in progress)', 'C20': 'check not built yet (in progress)'}
 
 FIX_COMMITS = []
 
